@@ -152,6 +152,13 @@ func workerMain(props map[string]bool, opts map[string]string) {
 			w.process(bytes.TrimRight(line, "\n"))
 			w.res.Done++
 		}
+		if alias := opts["alias"]; alias != "" {
+			// the check of property <alias> re-uses the oracles of other properties
+			for i := range w.res.Viol {
+				w.res.Viol[i].Detail = "[" + w.res.Viol[i].Prop + " oracle] " + w.res.Viol[i].Detail
+				w.res.Viol[i].Prop = alias
+			}
+		}
 		b, _ := json.Marshal(w.res)
 		out.Write(b)
 		out.WriteByte('\n')
